@@ -53,8 +53,10 @@ Init == \E v \in Variants :
                 /\ hw = 0 /\ nops = 0
                 /\ hist = <<NewEv(v, b)>>
 
+(* More == nops < MaxOps is the first conjunct of every action: a reply is computed only where a step is possible *)
+More == nops < MaxOps
 Step(ev, end) ==
-  /\ nops < MaxOps /\ nops' = nops + 1
+  /\ nops' = nops + 1
   /\ hw' = IF end > hw THEN end ELSE hw
   /\ UNCHANGED cfg
   /\ hist' = Append(hist, ev)
@@ -63,11 +65,11 @@ Step(ev, end) ==
 (* calls alternate between separate buffers and in-place (dst = src) *)
 InPlace == (nops % 2) = 1
 NXor(n) ==
-  /\ pos + n <= MaxPos
+  /\ More /\ pos + n <= MaxPos
   /\ XORKeyStream(In(nops + 1, n))
   /\ Step([op |-> "xor", n |-> n, from |-> (nops + 1) % 16, inplace |-> InPlace, exp |-> Hx!FromBytes(reply')], pos + n)
 NXorAt(off, n) ==
-  /\ off + n <= MaxPos
+  /\ More /\ off + n <= MaxPos
   /\ XORKeyStreamAt(off, In(nops + 1, n))
   /\ Step([op |-> "xorat", off |-> off, n |-> n, from |-> (nops + 1) % 16, inplace |-> InPlace, exp |-> Hx!FromBytes(reply')], off + n)
 
